@@ -27,6 +27,8 @@ CLAIM = dict(
           "scalar, std::vector, std::array) and kept extents around 2^7, 2^8 (view) and 2^15, 2^16, 2^31, 2^32 (bare shapes); sum / prod / cumsum / "
           "cumprod / accumulate_add on uint8 / int8 / int32 sources with wider, narrower, other-signedness and floating dtypes, with values that "
           "overflow the source type or the narrower dtype. "
+          "A view is a value over its leaf arrays: a 'deferred evaluation' stream reduces / accumulates temporary operand views built inside a noinline "
+          "helper, returned by value and read only after a second call of the helper (run-time shaped and fixed-shape operands, ndebug and ASan). "
           "An explicitly requested result dtype (float64 / int32 on int64 data) and uint8 data (the accumulator keeps the operand's element type: "
           "f = op mod 256, an instance of the arbitrary f) are corresponded as well. "
           "vector_norm (double data, relative tolerance 1e-9; the model composes the views as mean.hpp / var.hpp do with the modelled "
@@ -180,6 +182,15 @@ def gen_cases(rng, tier):
     for shape in shapes:
         if len(shape) in (2, 3) and rng.random() < 0.5:
             out.append(("statistics", "trace %s" % A(shape, [rng.randint(-9, 9) for _ in range(size(shape))]), "c08s"))
+    # deferred evaluation: reduce / accumulate of a temporary operand view built inside a helper, returned by value, two calls
+    # before either result is read (a view owns its view operands; only leaf arrays are referenced)
+    for i in range(160 if tier == "quick" else 1200):
+        form = ["red", "redk", "acc", "sumv"][i % 4]
+        if (i // 4) % 3 == 2: kind, shape = "fs", (2, 3)
+        else: kind, shape = "dyn", rng.choice([s for s in shapes if len(s) <= 3])
+        d = len(shape); axis = rng.randrange(d); axis = axis - d if rng.random() < 0.4 else axis
+        out.append(("deferred", "defer S:%s S:%s %s %s I:%d I:%d" % (form, kind, A(shape, data_for(rng, "add", size(shape))),
+                                                                     A(shape, data_for(rng, "add", size(shape))), axis, rng.randint(-9, 9)), "c08"))
     # ---------- type-width boundaries (c08_types.cpp) ----------
     AXT = ["i8", "u8", "i16", "u16", "i32", "u32", "i64", "u64"]
     BOUND = [1, 2, 3, 127, 128, 129, 200, 255, 256, 257, 300, 32767, 32768, 40000, 65535, 65536, 70000,
